@@ -66,8 +66,10 @@ class Fn:
 
 
 class Repo:
-    def __init__(self, ast_json, root):
+    def __init__(self, ast_json, root, _data=None):
         self.root = root
+        self.renames = {}
+        self.rename_log = []
         self.files = {}  # rel path -> {items}
         self.src = {}  # rel path -> list of lines
         self.fns = {}
@@ -77,8 +79,12 @@ class Repo:
         self.aliases = {}
         self.impls = []  # (module, self_ty, trait, node)
         self.uses = {}  # module -> [use tree strings]
-        with open(ast_json) as f:
-            data = json.load(f)
+        if _data is None:
+            with open(ast_json) as f:
+                data = json.load(f)
+        else:
+            data = _data
+        self._data = data
         for path, content in data.items():
             rel = os.path.relpath(path, root)
             self.files[rel] = content
